@@ -90,7 +90,7 @@ fn sampled(rng: &mut Rng) -> Scenario {
                 sc.low_dense = false;
                 let k = rng.int(0, ncb.saturating_sub(1));
                 if !sc.actions.iter().any(|(kk, _)| *kk == k) {
-                    let xo = sc.x0 + (sc.xend - sc.x0) * rng.f();
+                    let xo = if rng.bool(0.35) { sc.xend } else { sc.x0 + (sc.xend - sc.x0) * rng.f() };
                     sc.actions.push((k, Action::XOut(xo)));
                 }
             }
